@@ -40,6 +40,7 @@ func init() {
 	addSelfTests("C35",
 		mutation{"director-instead-of-rewrite", "gateway/proxy_handler.go", "		Rewrite:        g.proxyRewrite,", "		Director:       func(r *http.Request) {},", "proxy-config"},
 		mutation{"real-ip-passed", "gateway/proxy_handler.go", "	\"X-Real-IP\",\n", "", "del-headers"},
+		mutation{"delete-only-when-first-value-present", "gateway/proxy_handler.go", "	for _, header := range delHeaders {\n		out.Header.Del(header)\n	}", "	for _, header := range delHeaders {\n		if in.Header.Get(header) != \"\" {\n			out.Header.Del(header)\n		}\n	}", "del-headers"},
 		mutation{"delete-after-setxforwarded", "gateway/proxy_handler.go", "	for _, header := range delHeaders {\n		out.Header.Del(header)\n	}\n\n	preq.SetXForwarded()", "	preq.SetXForwarded()\n	for _, header := range delHeaders {\n		out.Header.Del(header)\n	}\n", "order"},
 		mutation{"proto-from-inbound", "gateway/proxy_handler.go", "	out.Header.Set(\"X-Forwarded-Proto\", \"https\")", "	out.Header.Set(\"X-Forwarded-Proto\", in.Header.Get(\"X-Forwarded-Proto\"))", "asserted"},
 	)
@@ -400,6 +401,38 @@ func runC35(c *Ctx) {
 		return true
 	})
 	c.Ob("del-headers", "proxyRewrite#deletes-every-listed-header-from-Out", rw.Decl.Pos(), delCall != nil, "every header in delHeaders is deleted from the outbound header set")
+	if delCall != nil {
+		// ... on every iteration, whatever the request carries: the deletion is a top-level
+		// statement of the loop body and nothing before it can leave the iteration (a
+		// deletion conditioned on Header.Get, which reads the first field line only, lets
+		// a header whose first line is empty through)
+		uncond := false
+		ast.Inspect(rw.Body, func(n ast.Node) bool {
+			rs, ok := n.(*ast.RangeStmt)
+			if !ok || !containsNode(rs.Body, delCall) {
+				return true
+			}
+			for _, st := range rs.Body.List {
+				if es, ok := st.(*ast.ExprStmt); ok && ast.Unparen(es.X) == ast.Expr(delCall) {
+					uncond = true
+					break
+				}
+				leaves := false
+				ast.Inspect(st, func(m ast.Node) bool {
+					switch m.(type) {
+					case *ast.BranchStmt, *ast.ReturnStmt:
+						leaves = true
+					}
+					return true
+				})
+				if leaves {
+					break
+				}
+			}
+			return true
+		})
+		c.Ob("del-headers", "proxyRewrite#deletion-is-unconditional", delCall.Pos(), uncond, "each listed header is deleted on every iteration, not only when some test of the incoming request holds")
+	}
 	sxf := methodCalls(rw, false, "SetXForwarded")
 	c.Floor("SetXForwarded sites", len(sxf), 1)
 	if delCall != nil && len(sxf) == 1 {
